@@ -34,6 +34,7 @@
 #include "muduo/net/TcpServer.h"
 #include "muduo/net/TcpClient.h"
 #include "muduo/net/TcpConnection.h"
+#include "muduo/net/Connector.h"
 #include "muduo/net/InetAddress.h"
 #include "muduo/net/Buffer.h"
 #undef private
@@ -516,6 +517,133 @@ C08_SCENARIO(client_stop_then_foreign_dtor)
   sleep_ms(20);                               // in real time the loop has run it by now; no happens-before says so
   delete client;                              // foreign-thread destruction: frees the Connector here
   sleep_ms(60);
+}
+
+// ---------------------------------------------------------------- forced schedules, part 2: callbacks and hand-offs
+namespace
+{
+EventLoop* g_qloop = NULL;
+CountDownLatch* g_qready = NULL;
+void qbusy() { ::usleep(90 * 1000); }
+void* qthread(void*)
+{
+  EventLoop loop;
+  loop.runAfter(0.005, qbusy);
+  g_qloop = &loop;
+  g_qready->countDown();
+  loop.loop();
+  return NULL;                                // ~EventLoop on the owner's thread
+}
+pthread_t g_loopTid;
+void storeTid(CountDownLatch* l) { g_loopTid = pthread_self(); l->countDown(); }
+TcpClient* g_victim = NULL;
+void deleteVictim(void*) { delete g_victim; g_victim = NULL; ::usleep(20 * 1000); }
+}  // namespace
+
+// F-4 family: queueInLoop() hands the loop a functor (push under the mutex, unlock) and then still calls wakeup().  If the
+// functor itself ends the loop - queueInLoop(bind(&EventLoop::quit, loop)) - the owner may destroy the EventLoop before or
+// while that happens.  The loop thread is inside a long timer callback when the call arrives; it then runs the functor in
+// the same iteration and leaves loop() without ever polling the wake-up descriptor: nothing orders the caller's write to
+// wakeupFd_ before ~EventLoop's close.  (ThreadSanitizer forgets a descriptor at close(), so the schedule in which the
+// write comes after the close is not reportable; the missing happens-before edge is the same.)
+C08_SCENARIO(f_queueInLoop_quit_functor)
+{
+  CountDownLatch ready(1);
+  g_qready = &ready;
+  pthread_t th;
+  pthread_create(&th, NULL, &qthread, NULL);
+  ready.wait();
+  sleep_ms(40);                               // the loop thread is inside qbusy
+  g_qloop->queueInLoop(std::bind(&EventLoop::quit, g_qloop));   // any-thread operation; afterwards only sleep
+  sleep_ms(150);
+  pthread_join(th, NULL);
+}
+
+// F-13 proper: TcpClient's constructor registers newConnection(raw this) on the Connector, a shared_ptr-managed object that
+// outlives the client (~TcpClient parks it on the loop for 1 s).  The loop thread is parked in Connector::handleWrite after
+// `if (connect_)`, right before it invokes the callback; a foreign thread destroys the client; the callback then runs
+// TcpClient::newConnection on the freed client.
+C08_SCENARIO(f_client_ctor_callback_rawthis)
+{
+  RawServer srv(300);
+  LoopHost host;
+  {
+    CountDownLatch l(1);
+    host.loop()->runInLoop(std::bind(&storeTid, &l));
+    l.wait();
+  }
+  g_victim = new TcpClient(host.loop(), InetAddress("127.0.0.1", static_cast<uint16_t>(srv.port)), "c08cli");
+  {
+    c08::StallHelper h(&deleteVictim, NULL);
+    // std::function::operator() first reads _M_manager (offset 16) to test for emptiness
+    c08::arm_stall_thread(g_loopTid, reinterpret_cast<char*>(&g_victim->connector_->newConnectionCallback_) + 16, c08::kRead8);
+    g_victim->connect();
+  }
+  sleep_ms(100);
+}
+
+// TcpClient::newConnection registers removeConnection(raw this) as the connection's close callback; ~TcpClient replaces it
+// by a functor it POSTS to the loop ("FIXME: not 100% safe, if we are in different thread"): a close handled before that
+// functor runs calls TcpClient::removeConnection on the freed client.  The loop is busy while the peer closes and the
+// foreign thread destroys the client; channel events are handled before pending functors.
+C08_SCENARIO(f_client_closecb_rawthis)
+{
+  RawServer srv(60);
+  LoopHost host;
+  TcpClient* client = new TcpClient(host.loop(), InetAddress("127.0.0.1", static_cast<uint16_t>(srv.port)), "c08cli");
+  client->setConnectionCallback(onClientConn);
+  client->connect();
+  for (int i = 0; i < 400 && g_cup.load() == 0; ++i) ::usleep(500);
+  host.loop()->runInLoop(std::bind(&busy, 150));      // (synchronisation BEFORE the operation under test)
+  sleep_ms(100);                                      // the server has closed by now (60 ms); the loop has not seen it
+  delete client;                                      // foreign thread
+  sleep_ms(150);
+}
+
+// TcpServer::newConnection registers removeConnection(raw this) as the close callback of a connection that lives on an io
+// loop and can outlive the server.  The io loop handles the peer's close while the base loop is busy (the callback posts
+// removeConnectionInLoop(raw this) to the base loop); the base loop then destroys the server and afterwards runs the posted
+// functor on the freed server.
+namespace
+{
+void serverInitMT(EventLoop* loop)
+{
+  g_server = new TcpServer(loop, InetAddress("127.0.0.1", static_cast<uint16_t>(g_port)), "c08srv");
+  g_server->setConnectionCallback(onConnection);
+  g_server->setMessageCallback(onMessageEcho);
+  g_server->setThreadNum(1);
+  g_server->start();
+}
+void busyThenDeleteServer(int ms)
+{
+  ::usleep(ms * 1000);
+  delete g_server;
+  g_server = NULL;
+}
+}  // namespace
+
+C08_SCENARIO(f_server_closecb_rawthis)
+{
+  g_port = c08::pick_port();
+  LoopHost* host = new LoopHost(serverInitMT, serverFini);
+  Peer* peer = new Peer(g_port, 3000);
+  TcpConnectionPtr conn = waitConn();
+  sleep_ms(10);
+  EventLoop* io = conn->getLoop();
+  host->loop()->runInLoop(std::bind(&busyThenDeleteServer, 160));
+  sleep_ms(10);
+  io->runInLoop(std::bind(&busy, 50));
+  sleep_ms(10);
+  peer->stop.store(1, std::memory_order_relaxed);     // closes during the io loop's busy period
+  sleep_ms(300);
+  conn.reset();
+  {
+    MutexLockGuard lock(g_mu);
+    g_conn.reset();
+  }
+  peer->join();
+  delete host;
+  delete peer;
 }
 
 // F-11: TcpClient::connect_ is stored by disconnect() callers and read by the loop in removeConnection
